@@ -48,6 +48,7 @@ type Model struct {
 	strMemo       map[strKey][]string
 	Stats         map[string]int
 	LoadSeconds   float64
+	fwCache       map[*ssa.Function]runnerForwarder
 	calleeCache   map[*ssa.Function][]callEdge
 	lm            *lockModel
 	hoCache       map[*ssa.Function]map[int]bool
@@ -109,10 +110,44 @@ func Load(repoDir string, useCHA bool) (*Model, error) {
 	if m.SSA == nil {
 		return nil, fmt.Errorf("no SSA package for root")
 	}
+	fieldPtrMemo := map[*types.Var]bool{}
+	fieldPointerWritten = func(f *types.Var) bool {
+		if v, ok := fieldPtrMemo[f]; ok {
+			return v
+		}
+		fieldPtrMemo[f] = true // cycles: conservative
+		written := false
+		for _, g := range m.Funcs {
+			for _, b := range g.Blocks {
+				for _, ins := range b.Instrs {
+					switch x := ins.(type) {
+					case *ssa.FieldAddr:
+						if fieldOf(x) != f || x.Referrers() == nil {
+							continue
+						}
+						for _, ref := range *x.Referrers() {
+							if ld, ok := ref.(*ssa.UnOp); ok && ld.Op == token.MUL {
+								if pointerWritten(ld, 0, map[ssa.Value]bool{}) {
+									written = true
+								}
+							}
+						}
+					case *ssa.Field:
+						if fieldOfField(x) == f && pointerWritten(x, 0, map[ssa.Value]bool{}) {
+							written = true
+						}
+					}
+				}
+			}
+		}
+		fieldPtrMemo[f] = written
+		return written
+	}
 	all := ssautil.AllFunctions(prog)
 	for fn := range all {
 		if m.inPkg(fn) {
 			m.Funcs = append(m.Funcs, fn)
+
 		}
 	}
 	sort.Slice(m.Funcs, func(i, j int) bool {
